@@ -179,6 +179,25 @@ func (c *context) collectPackageInputs(m *manifestBuilder, pkg *aPackage) error 
 	}
 	m.pkg.EmbedFiles = embedList
 
+	// C/C++ files named by the LLGoFiles constant (compiled by clFile and
+	// archived with the package; they live in sub-directories, so go list does
+	// not report them as OtherFiles).
+	linkPkgs := []*packages.Package{p}
+	if pkg.AltPkg != nil {
+		linkPkgs = append(linkPkgs, pkg.AltPkg.Package)
+	}
+	for _, lp := range linkPkgs {
+		_, files := llgoFilesSpec(lp)
+		if len(files) == 0 {
+			continue
+		}
+		list, err := digestFilesWithOverlay(files, c.conf.Overlay)
+		if err != nil {
+			return fmt.Errorf("digest LLGoFiles: %w", err)
+		}
+		m.pkg.LinkFiles = append(m.pkg.LinkFiles, list...)
+	}
+
 	// Rewrite vars
 	if len(pkg.rewriteVars) > 0 {
 		rewrites := make(map[string]string, len(pkg.rewriteVars))
